@@ -634,6 +634,10 @@ host_write_s2f	(SF_PRIVATE *psf, const short *ptr, sf_count_t len)
 	scale = (psf->scale_int_float == 0) ? 1.0 : 1.0 / 0x8000 ;
 	bufferlen = ARRAY_LEN (ubuf.fbuf) ;
 
+	/* Keep the chunks frame aligned, the peak update indexes channels from the chunk start. */
+	if (psf->peak_info && bufferlen > psf->sf.channels)
+		bufferlen -= bufferlen % psf->sf.channels ;
+
 	while (len > 0)
 	{	if (len < bufferlen)
 			bufferlen = (int) len ;
@@ -664,6 +668,10 @@ host_write_i2f	(SF_PRIVATE *psf, const int *ptr, sf_count_t len)
 
 	scale = (psf->scale_int_float == 0) ? 1.0 : 1.0 / (8.0 * 0x10000000) ;
 	bufferlen = ARRAY_LEN (ubuf.fbuf) ;
+
+	/* Keep the chunks frame aligned, the peak update indexes channels from the chunk start. */
+	if (psf->peak_info && bufferlen > psf->sf.channels)
+		bufferlen -= bufferlen % psf->sf.channels ;
 
 	while (len > 0)
 	{	if (len < bufferlen)
@@ -723,6 +731,10 @@ host_write_d2f	(SF_PRIVATE *psf, const double *ptr, sf_count_t len)
 	sf_count_t	total = 0 ;
 
 	bufferlen = ARRAY_LEN (ubuf.fbuf) ;
+
+	/* Keep the chunks frame aligned, the peak update indexes channels from the chunk start. */
+	if (psf->peak_info && bufferlen > psf->sf.channels)
+		bufferlen -= bufferlen % psf->sf.channels ;
 
 	while (len > 0)
 	{	if (len < bufferlen)
@@ -878,6 +890,10 @@ replace_write_s2f	(SF_PRIVATE *psf, const short *ptr, sf_count_t len)
 	scale = (psf->scale_int_float == 0) ? 1.0 : 1.0 / 0x8000 ;
 	bufferlen = ARRAY_LEN (ubuf.fbuf) ;
 
+	/* Keep the chunks frame aligned, the peak update indexes channels from the chunk start. */
+	if (psf->peak_info && bufferlen > psf->sf.channels)
+		bufferlen -= bufferlen % psf->sf.channels ;
+
 	while (len > 0)
 	{	if (len < bufferlen)
 			bufferlen = (int) len ;
@@ -910,6 +926,10 @@ replace_write_i2f	(SF_PRIVATE *psf, const int *ptr, sf_count_t len)
 
 	scale = (psf->scale_int_float == 0) ? 1.0 : 1.0 / (8.0 * 0x10000000) ;
 	bufferlen = ARRAY_LEN (ubuf.fbuf) ;
+
+	/* Keep the chunks frame aligned, the peak update indexes channels from the chunk start. */
+	if (psf->peak_info && bufferlen > psf->sf.channels)
+		bufferlen -= bufferlen % psf->sf.channels ;
 
 	while (len > 0)
 	{	if (len < bufferlen)
@@ -974,6 +994,10 @@ replace_write_d2f	(SF_PRIVATE *psf, const double *ptr, sf_count_t len)
 	sf_count_t	total = 0 ;
 
 	bufferlen = ARRAY_LEN (ubuf.fbuf) ;
+
+	/* Keep the chunks frame aligned, the peak update indexes channels from the chunk start. */
+	if (psf->peak_info && bufferlen > psf->sf.channels)
+		bufferlen -= bufferlen % psf->sf.channels ;
 
 	while (len > 0)
 	{	if (len < bufferlen)
